@@ -34,7 +34,11 @@ RULE = ("per solver: seeded random objective (hash / needle-in-haystack / platea
         "families, integer or dyadic valued), callbacks, start points, bounds, limits, acceptance rules, "
         "minimize/maximize, optional on_progress stop; powell/bfgs/lbfgs additionally on objectives with jumps and "
         "kinks (hard-penalty quadratic, L1, minimax, hinge, stairs+slope), analytic and finite-difference gradients, "
-        "start points on both sides of the discontinuity, max_iter swept over 0..40 and larger; each case = recorded run + identical rerun + mirrored run; "
+        "start points on both sides of the discontinuity, max_iter swept over 0..40 and larger; 70 % of the cases in a "
+        "presentation style (bounds / start points / populations / operator lists / tabu candidate lists as list or "
+        "tuple, numbers as int or float, equal vectors as one shared object, tabu moves as odd hashables incl. None), "
+        "~20 % as elements of 2-4 call histories sharing the objective proxy and all callback objects (same input, "
+        "narrow<->wide limits/bounds, minimize<->maximize, new start/seed), a few large instances per run; each case = recorded run + identical rerun + mirrored run; "
         "non-trivial = the best was found after the start points and a strictly worse candidate was evaluated "
         "(and, for single-solution searches, accepted as current) after it")
 
@@ -197,95 +201,118 @@ def _result(r, rec, f_plain, extra, cont):
     return d
 
 
-def run_discrete(case, minimize, negate):
+# presentation styles (what the annotated contracts allow: Sequence -> list / tuple, numbers as int / float,
+# equal elements as one shared object, tabu moves as arbitrary hashables)
+ODD_LABELS = [None, 0, "", (), frozenset(), -1, 0.5, (1, 2), "7", "0", "a", (None,), 2, "-1", 1.5, frozenset([1])]
+
+
+def _num(v, pres):
+    """An integral number as int or float, as the style says (same mathematical value)."""
+    if pres.get("num") == "int" and float(v).is_integer():
+        return int(v)
+    if pres.get("num") == "float":
+        return float(v)
+    return v
+
+
+def _seq(items, kind):
+    return tuple(items) if kind == "tuple" else list(items)
+
+
+def _vectors(vs, pres):
+    """A collection of vectors in the requested style; equal vectors share one object when aliasing is on."""
+    out, seen = [], {}
+    for v in vs:
+        key = tuple(v)
+        if pres.get("alias") and key in seen:
+            out.append(seen[key])
+            continue
+        obj = _seq([_num(x, pres) for x in v], pres.get("inner", "list"))
+        seen[key] = obj
+        out.append(obj)
+    return _seq(out, pres.get("outer", "list"))
+
+
+def _bounds(bs, pres):
+    return _seq([_seq([_num(lo, pres), _num(hi, pres)], pres.get("inner", "tuple")) for lo, hi in bs],
+                pres.get("outer", "list"))
+
+
+def _snapshot(sol):
+    import copy
+    return copy.deepcopy(sol)
+
+
+def run_discrete(case, minimize, negate, sess=None):
+    """One call of a discrete solver.  `sess` (a dict) keeps the objective proxy and every callback *object*
+    alive across the calls of a history; the per-call recording state lives in sess['S'] and is reset here."""
     solver = case["solver"]
-    f0 = dobj(case["obj"])
-    f = (lambda s: -f0(s)) if negate else f0
-    rec = Rec(f, tuple)
+    sess = {} if sess is None else sess
     cb = case["cb"]
+    pres = case.get("pres", {})
     L, K, salt = cb["L"], cb["K"], cb["salt"]
-    keep, idx_of = [], {}           # objects we handed out (kept alive), id -> evaluation index
-    cur_at_call, cands, meta, acc_log = [], [], {}, {}
-    cnt = [0]
+    if "S" not in sess:
+        S = sess["S"] = {}
+        f0 = dobj(case["obj"])
+        f = sess["f"] = (lambda s: -f0(s)) if negate else f0
+        rec = sess["rec"] = Rec(f, tuple)
 
-    def fresh(lst):
-        t = tuple(lst)
-        keep.append(t)
-        return t
+        def fresh(lst):
+            t = tuple(lst)
+            S["keep"].append(t)
+            return t
 
-    def hook(k, x):
-        idx_of[id(x)] = k
-        if id(x) in meta:
-            j, mv = meta[id(x)]
-            cands[j].append(mv)
+        def hook(k, x):
+            S["idx_of"][id(x)] = k
+            if id(x) in S["meta"]:
+                j, mv = S["meta"][id(x)]
+                S["cands"][j].append(mv)
 
-    rec.hook = hook
-    kw = dict(case["opts"])
-    kw["minimize"] = minimize
-    kw["seed"] = case["seed"]
-    if case.get("stop"):
-        kw["on_progress"] = _stopper(case["stop"])
-        kw["progress_interval"] = 1
+        rec.hook = hook
 
-    def tweak(sol, h):
-        lst = list(sol)
-        i = h % L
-        if cb.get("mode", "step") == "step":
-            lst[i] = (lst[i] + (1 if (h >> 8) & 1 else -1)) % K
-        else:
-            lst[i] = (h >> 8) % K
-        return lst
-
-    def custom_accept(kind):
-        def acc(cur, new, it, rng):
-            if kind == "never":
-                a = False
-            elif kind == "always":
-                a = True
-            elif kind == "rng":
-                a = rng.random() < 0.5
-            elif kind == "worse_only":
-                a = new >= cur
-            elif kind == "slack":
-                a = new < cur + 2
+        def tweak(sol, h):
+            lst = list(sol)
+            i = h % L
+            if cb.get("mode", "step") == "step":
+                lst[i] = (lst[i] + (1 if (h >> 8) & 1 else -1)) % K
             else:
-                a = H(salt, "acc", it) % 3 == 0
-            acc_log[len(rec.vals) - 1] = a
-            return a
-        return acc
+                lst[i] = (h >> 8) % K
+            return lst
 
-    accept_kind = None
-    if solver in ("lns", "alns"):
-        a = kw.get("accept", "improving" if solver == "lns" else "simulated_annealing")
-        if isinstance(a, dict):
-            kw["accept"] = custom_accept(a["custom"])
-            accept_kind = 3
-        else:
-            accept_kind = ACCEPT_CODE[a]
+        def custom_accept(kind):
+            def acc(cur, new, it, rng):
+                if kind == "never":
+                    a = False
+                elif kind == "always":
+                    a = True
+                elif kind == "rng":
+                    a = rng.random() < 0.5
+                elif kind == "worse_only":
+                    a = new >= cur
+                elif kind == "slack":
+                    a = new < cur + 2
+                else:
+                    a = H(salt, "acc", it) % 3 == 0
+                S["acc_log"][len(rec.vals) - 1] = a
+                return a
+            return acc
 
-    init = fresh(case["start"]) if solver != "evolve" else None
+        def label(mv):
+            if S["labels"] == "odd" and 2 * L <= len(ODD_LABELS):
+                return ODD_LABELS[(mv + salt) % len(ODD_LABELS)]
+            return mv
 
-    if solver == "anneal":
-        from solvor.anneal import anneal, linear_cooling, logarithmic_cooling
-        c = kw.get("cooling")
-        if isinstance(c, list):
-            kw["cooling"] = linear_cooling(c[1]) if c[0] == "linear" else logarithmic_cooling(c[1])
+        def neighbors_anneal(sol):
+            S["cur_at_call"].append(S["idx_of"].get(id(sol), -1))
+            S["cnt"] += 1
+            return fresh(tweak(sol, H(salt, S["cnt"], tuple(sol))))
 
-        def neighbors(sol):
-            cur_at_call.append(idx_of.get(id(sol), -1))
-            cnt[0] += 1
-            return fresh(tweak(sol, H(salt, cnt[0], tuple(sol))))
-
-        r = anneal(init, rec, neighbors, **kw)
-    elif solver == "tabu":
-        from solvor.tabu import tabu_search
-
-        def neighbors(sol):
-            cur_at_call.append(idx_of.get(id(sol), -1))
-            j = len(cands)
-            cands.append([])
+        def neighbors_tabu(sol):
+            S["cur_at_call"].append(S["idx_of"].get(id(sol), -1))
+            j = len(S["cands"])
+            S["cands"].append([])
             if cb.get("dead") and H(salt, "dead", tuple(sol)) % cb["dead"] == 0:
-                return []
+                return _seq([], S["outer"])
             out = []
             for i in range(L):
                 for d in (1, -1):
@@ -294,19 +321,15 @@ def run_discrete(case, minimize, negate):
                         lst[i] = (lst[i] + d) % K
                         nb = fresh(lst)
                         mv = i if cb.get("coarse") else 2 * i + (d > 0)
-                        meta[id(nb)] = (j, mv)
-                        out.append((mv, nb))
-            return out
-
-        r = tabu_search(init, rec, neighbors, **kw)
-    elif solver in ("lns", "alns"):
-        from solvor.lns import alns, lns
+                        S["meta"][id(nb)] = (j, mv)
+                        out.append((label(mv), nb))
+            return _seq(out, S["outer"])
 
         def mk_destroy(tag):
             def destroy(sol, rng):
-                cur_at_call.append(idx_of.get(id(sol), -1))
-                cnt[0] += 1
-                i = rng.randrange(L) if tag == 0 else H(salt, "d", cnt[0]) % L
+                S["cur_at_call"].append(S["idx_of"].get(id(sol), -1))
+                S["cnt"] += 1
+                i = rng.randrange(L) if tag == 0 else H(salt, "d", S["cnt"]) % L
                 return (sol, i)
             return destroy
 
@@ -314,30 +337,78 @@ def run_discrete(case, minimize, negate):
             def repair(partial, rng):
                 sol, i = partial
                 lst = list(sol)
-                lst[i] = rng.randrange(K) if tag == 0 else (lst[i] + 1 + H(salt, "r", cnt[0]) % max(1, K - 1)) % K
+                lst[i] = rng.randrange(K) if tag == 0 else (lst[i] + 1 + H(salt, "r", S["cnt"]) % max(1, K - 1)) % K
                 return fresh(lst)
             return repair
 
-        if solver == "lns":
-            r = lns(init, rec, mk_destroy(cb.get("dtag", 0)), mk_repair(cb.get("rtag", 0)), **kw)
-        else:
-            r = alns(init, rec, [mk_destroy(0), mk_destroy(1)][: cb.get("nd", 2)],
-                     [mk_repair(0), mk_repair(1)][: cb.get("nr", 2)], **kw)
-    else:  # evolve
-        from solvor.genetic import evolve
-        pop = [fresh(p) for p in case["start"]]
-
         def crossover(p1, p2):
-            cnt[0] += 1
-            cut = H(salt, "x", cnt[0]) % (L + 1)
+            S["cnt"] += 1
+            cut = H(salt, "x", S["cnt"]) % (L + 1)
             return fresh(list(p1[:cut]) + list(p2[cut:]))
 
-        def mutate(s):
-            cnt[0] += 1
-            return fresh(tweak(s, H(salt, "m", cnt[0])))
+        def mutate(sl):
+            S["cnt"] += 1
+            return fresh(tweak(sl, H(salt, "m", S["cnt"])))
 
-        r = evolve(rec, pop, crossover, mutate, **kw)
+        sess.update(fresh=fresh, custom_accept=custom_accept, acc={}, neighbors_anneal=neighbors_anneal,
+                    neighbors_tabu=neighbors_tabu, destroy=[mk_destroy(0), mk_destroy(1)],
+                    repair=[mk_repair(0), mk_repair(1)], crossover=crossover, mutate=mutate)
+    S, rec, f, fresh = sess["S"], sess["rec"], sess["f"], sess["fresh"]
+    S.clear()
+    S.update(keep=[], idx_of={}, cur_at_call=[], cands=[], meta={}, acc_log={}, cnt=0,
+             labels=pres.get("labels", "int"), outer=pres.get("outer", "list"))
+    rec.args, rec.vals = [], []
+    kw = dict(case["opts"])
+    kw["minimize"] = minimize
+    kw["seed"] = case["seed"]
+    if case.get("stop"):
+        kw["on_progress"] = _stopper(case["stop"])
+        kw["progress_interval"] = 1
 
+    accept_kind = None
+    if solver in ("lns", "alns"):
+        a = kw.get("accept", "improving" if solver == "lns" else "simulated_annealing")
+        if isinstance(a, dict):
+            if a["custom"] not in sess["acc"]:
+                sess["acc"][a["custom"]] = sess["custom_accept"](a["custom"])
+            kw["accept"] = sess["acc"][a["custom"]]
+            accept_kind = 3
+        else:
+            accept_kind = ACCEPT_CODE[a]
+        for wname in ("destroy_weights", "repair_weights"):
+            if wname in kw:
+                kw[wname] = _seq([_num(w, pres) for w in kw[wname]], pres.get("outer", "list"))
+
+    init = fresh(case["start"]) if solver != "evolve" else None
+
+    if solver == "anneal":
+        from solvor.anneal import anneal, linear_cooling, logarithmic_cooling
+        c = kw.get("cooling")
+        if isinstance(c, list):
+            kw["cooling"] = linear_cooling(c[1]) if c[0] == "linear" else logarithmic_cooling(c[1])
+        r = anneal(init, rec, sess["neighbors_anneal"], **kw)
+    elif solver == "tabu":
+        from solvor.tabu import tabu_search
+        r = tabu_search(init, rec, sess["neighbors_tabu"], **kw)
+    elif solver in ("lns", "alns"):
+        from solvor.lns import alns, lns
+        if solver == "lns":
+            r = lns(init, rec, sess["destroy"][cb.get("dtag", 0)], sess["repair"][cb.get("rtag", 0)], **kw)
+        else:
+            r = alns(init, rec, _seq(sess["destroy"][: cb.get("nd", 2)], pres.get("outer", "list")),
+                     _seq(sess["repair"][: cb.get("nr", 2)], pres.get("outer", "list")), **kw)
+    else:  # evolve
+        from solvor.genetic import evolve
+        pop, seen = [], {}
+        for p in case["start"]:
+            if pres.get("alias") and tuple(p) in seen:
+                pop.append(seen[tuple(p)])
+            else:
+                seen[tuple(p)] = fresh(p)
+                pop.append(seen[tuple(p)])
+        r = evolve(rec, _seq(pop, pres.get("outer", "list")), sess["crossover"], sess["mutate"], **kw)
+
+    cur_at_call, cands, acc_log = S["cur_at_call"], S["cands"], S["acc_log"]
     n = len(rec.vals)
     if solver in ("anneal", "lns", "alns", "tabu"):
         # accept decision for candidate k is visible as the argument of the next callback call
@@ -353,8 +424,10 @@ def run_discrete(case, minimize, negate):
                     coins[k] = cur_at_call[k] == k
     else:
         coins = []
-    extra = {"coins": coins, "cur_at_call": cur_at_call, "cands": cands, "accept_kind": accept_kind,
+    extra = {"coins": coins, "cur_at_call": list(cur_at_call), "cands": [list(c) for c in cands],
+             "accept_kind": accept_kind,
              "starts": [rat(f(tuple(p))) for p in (case["start"] if solver == "evolve" else [case["start"]])]}
+    sess.setdefault("sols", []).append((r.solution, _snapshot(r.solution)))
     return _result(r, rec, f, extra, cont=False)
 
 
@@ -362,31 +435,41 @@ def _clipf(x, bounds):
     return [max(lo, min(hi, xi)) for xi, (lo, hi) in zip(x, bounds)]
 
 
-def run_continuous(case, minimize, negate):
+def run_continuous(case, minimize, negate, sess=None):
     solver = case["solver"]
-    f0 = cobj(case["obj"])
-    f = (lambda x: -f0(x)) if negate else f0
-    rec = Rec(f, list)
+    sess = {} if sess is None else sess
+    pres = case.get("pres", {})
+    if "rec" not in sess:
+        f0 = cobj(case["obj"])
+        sess["f"] = (lambda x: -f0(x)) if negate else f0
+        sess["rec"] = Rec(sess["f"], list)
+        if solver in ("bfgs", "lbfgs"):
+            sess["grad"] = make_grad(case["obj"], sess["f"])
+    f, rec = sess["f"], sess["rec"]
+    rec.args, rec.vals = [], []
     kw = dict(case["opts"])
     kw["minimize"] = minimize
     if case.get("stop"):
         kw["on_progress"] = _stopper(case["stop"])
         kw["progress_interval"] = 1
-    bounds = [tuple(b) for b in case["bounds"]] if case.get("bounds") else None
+    plain = [tuple(b) for b in case["bounds"]] if case.get("bounds") else None
+    bounds = _bounds(case["bounds"], pres) if case.get("bounds") else None
+    x0 = _seq([_num(v, pres) for v in case["start"]], pres.get("outer", "list")) \
+        if solver in ("nm", "powell", "bfgs", "lbfgs") else None
     starts = []
     if solver == "de":
         from solvor.differential_evolution import differential_evolution
         if case.get("start") is not None:
-            kw["initial_population"] = [list(p) for p in case["start"]]
+            kw["initial_population"] = _vectors(case["start"], pres)
             used = case["start"][: max(kw.get("population_size", 15), 4)]
-            starts = [rat(f(_clipf(p, bounds))) for p in used]
+            starts = [rat(f(_clipf(p, plain))) for p in used]
         r = differential_evolution(rec, bounds, seed=case["seed"], **kw)
     elif solver == "pso":
         from solvor.particle_swarm import particle_swarm
         if case.get("start") is not None:
-            kw["initial_positions"] = [list(p) for p in case["start"]]
+            kw["initial_positions"] = _vectors(case["start"], pres)
             used = case["start"][: kw.get("n_particles", 30)]
-            starts = [rat(f(_clipf(p, bounds))) for p in used]
+            starts = [rat(f(_clipf(p, plain))) for p in used]
         r = particle_swarm(rec, bounds, seed=case["seed"], **kw)
     elif solver == "bayes":
         from solvor.bayesian import bayesian_opt
@@ -394,25 +477,25 @@ def run_continuous(case, minimize, negate):
     elif solver == "nm":
         from solvor.nelder_mead import nelder_mead
         starts = [rat(f(list(case["start"])))]
-        r = nelder_mead(rec, list(case["start"]), **kw)
+        r = nelder_mead(rec, x0, **kw)
     elif solver == "powell":
         from solvor.powell import powell
         if bounds:
             kw["bounds"] = bounds
-        r = powell(rec, list(case["start"]), **kw)
+        r = powell(rec, x0, **kw)
     else:
         from solvor.bfgs import bfgs, lbfgs
-        g = make_grad(case["obj"], f)
-        r = (bfgs if solver == "bfgs" else lbfgs)(g, list(case["start"]), objective_fn=rec, **kw)
+        r = (bfgs if solver == "bfgs" else lbfgs)(sess["grad"], x0, objective_fn=rec, **kw)
     extra = {"starts": starts, "coins": [], "cur_at_call": [], "cands": [], "accept_kind": None}
+    sess.setdefault("sols", []).append((r.solution, _snapshot(r.solution)))
     return _result(r, rec, f, extra, cont=True)
 
 
 DISCRETE = ("anneal", "tabu", "lns", "alns", "evolve")
 
 
-def run_once(case, minimize, negate):
-    return (run_discrete if case["solver"] in DISCRETE else run_continuous)(case, minimize, negate)
+def run_once(case, minimize, negate, sess=None):
+    return (run_discrete if case["solver"] in DISCRETE else run_continuous)(case, minimize, negate, sess)
 
 
 def _try(case, minimize, negate):
@@ -422,8 +505,11 @@ def _try(case, minimize, negate):
         return {"raised": f"{type(e).__name__}: {e}"[:300]}
 
 
-def impl(case):
-    A = run_once(case, case["minimize"], False)          # an exception here is the outcome of the case
+def impl(case, sess=None):
+    """Recorded run (inside the history's session when there is one), identical rerun and mirrored run with
+    fresh function objects."""
+    own = {} if sess is None else sess
+    A = run_once(case, case["minimize"], False, own)     # an exception here is the outcome of the case
     A2 = _try(case, case["minimize"], False)             # same input again
     B = _try(case, not case["minimize"], True) if case["solver"] in SKELETON else None   # mirror image
     keys = ("sol", "obj", "evals", "iters", "status")
@@ -435,8 +521,36 @@ def impl(case):
         else:
             mirror = {"sol": B["sol"], "obj": B["obj"], "evals": B["evals"],
                       "ok": B["sol"] == A["sol"] and frac_of(B["obj"]) == -frac_of(A["obj"]) and B["evals"] == A["evals"]}
+    obj, snap = own["sols"][-1]
     return {"A": A, "same_again": same, "again": None if same else {k: A2.get(k) for k in keys + ("raised",)},
-            "mirror": mirror}
+            "mirror": mirror, "sol_changed": None if _same_obj(obj, snap) else [repr(snap)[:200], repr(obj)[:200]]}
+
+
+def _same_obj(a, b):
+    try:
+        return type(a) is type(b) and repr(a) == repr(b)
+    except Exception:  # noqa: BLE001
+        return False
+
+
+def impl_group(group):
+    """A history: 1-4 related cases run one after the other in this process, sharing the objective proxy and
+    the callback objects.  Each element gets its own outcome ("ok", value) / ("err", message)."""
+    sess = {} if len(group) > 1 else None
+    outs = []
+    for case in group:
+        try:
+            outs.append(["ok", impl(case, sess)])
+        except BaseException as e:  # noqa: BLE001
+            import traceback
+            outs.append(["err", f"{type(e).__name__}: {e}"[:500] + "\n" + traceback.format_exc(limit=4)[-600:]])
+    if sess is not None:
+        # solution objects handed out by earlier calls must still be what they were
+        for i, (obj, snap) in enumerate(sess.get("sols", [])):
+            oks = [k for k, o in enumerate(outs) if o[0] == "ok"]
+            if i < len(oks) and not _same_obj(obj, snap) and not outs[oks[i]][1]["sol_changed"]:
+                outs[oks[i]][1]["sol_changed"] = [repr(snap)[:200], repr(obj)[:200]]
+    return outs
 
 
 def frac_of(v):
@@ -562,7 +676,7 @@ def gen_case(rng, solver, big=False):
     if solver in ("de", "pso", "bayes"):
         case["bounds"] = gen_bounds(rng, n)
     if solver == "de":
-        o["population_size"] = rng.choice([1, 4, 5, 6, 8, 15])
+        o["population_size"] = rng.choice([1, 2, 3, 4, 5, 6, 8, 15])   # 1..3 are silently raised to 4
         o["max_iter"] = rng.choice([1, 2, 3, 8, 20] + ([80] if big else []))
         o["strategy"] = rng.choice(["rand/1", "rand/1", "best/1", "best/1", "rand/2", "best/2"])
         if o["strategy"].endswith("/2"):
@@ -648,6 +762,115 @@ def gen_case(rng, solver, big=False):
             case["stop"] = rng.randint(1, max(1, o["max_iter"]))
     case["opts"] = o
     return case
+
+
+def gen_pres(rng):
+    return {"outer": rng.choice(["list", "tuple"]), "inner": rng.choice(["list", "tuple"]),
+            "num": rng.choice(["int", "float", "asis"]), "alias": rng.random() < 0.4,
+            "labels": rng.choice(["int", "odd"])}
+
+
+def with_pres(rng, case):
+    """Attach a presentation style (70 % of the cases); with aliasing on, make two start vectors equal."""
+    if rng.random() < 0.7:
+        case["pres"] = gen_pres(rng)
+        st = case.get("start")
+        if case["pres"]["alias"] and case["solver"] in ("evolve", "de", "pso") and st and len(st) >= 2:
+            i, j = rng.sample(range(len(st)), 2)
+            st[j] = list(st[i])
+    return case
+
+
+def vary(rng, case):
+    """A related input for a history: same solver, objective and callbacks, changed limits / direction / start."""
+    import copy
+    c = copy.deepcopy(case)
+    s = c["solver"]
+    hows = ["same", "max_iter_up", "max_iter_down", "seed", "stop", "pres"]
+    if s in SKELETON:
+        hows += ["flip", "flip"]
+    if c.get("bounds"):
+        hows += ["bounds_wide", "bounds_narrow"]
+    if c.get("start") is not None:
+        hows += ["start"]
+    how = rng.choice(hows)
+    o = c["opts"]
+    if how == "max_iter_up":
+        o["max_iter"] = o.get("max_iter", 10) * rng.choice([2, 3]) + 1
+    elif how == "max_iter_down":
+        o["max_iter"] = max(1, o.get("max_iter", 10) // rng.choice([2, 3]))
+    elif how == "seed":
+        c["seed"] = rng.randrange(10 ** 6)
+    elif how == "stop":
+        c["stop"] = 0 if c.get("stop") else rng.randint(1, max(1, o.get("max_iter", 5)))
+    elif how == "pres":
+        c["pres"] = gen_pres(rng)
+    elif how == "flip":
+        c["minimize"] = not c["minimize"]
+    elif how in ("bounds_wide", "bounds_narrow"):
+        d = rng.choice([0.5, 1, 2])
+        c["bounds"] = [[lo - d, hi + d] if how == "bounds_wide" else [lo, lo + max(0.25, (hi - lo) / 2)]
+                       for lo, hi in c["bounds"]]
+    elif how == "start":
+        st = c["start"]
+        if s in DISCRETE and s != "evolve":
+            c["start"] = [rng.randrange(c["cb"]["K"]) for _ in st]
+        elif s == "evolve":
+            c["start"] = [[rng.randrange(c["cb"]["K"]) for _ in st[0]] for _ in range(rng.randint(1, len(st) + 2))]
+        elif s in ("de", "pso"):
+            c["start"] = [[dyadic(rng, -8, 8) for _ in st[0]] for _ in range(rng.randint(1, len(st) + 2))]
+        else:
+            c["start"] = [dyadic(rng, -4, 4) for _ in st]
+    if c.get("stop") and o.get("max_iter") is not None:
+        c["stop"] = min(c["stop"], max(1, o["max_iter"]))
+    return c, how
+
+
+def gen_history(rng, solver, gid):
+    """2-4 consecutive calls sharing the objective proxy and every callback object."""
+    base = with_pres(rng, gen_case(rng, solver))
+    group = [base]
+    base["hist"] = {"gid": gid, "pos": 0, "how": "base"}
+    for k in range(1, rng.randint(2, 4)):
+        c, how = vary(rng, group[-1])
+        c["hist"] = {"gid": gid, "pos": k, "how": how}
+        group.append(c)
+    return group
+
+
+def large_cases(rng):
+    """A few instances several times larger than the usual ones (long runs, big populations / neighbourhoods /
+    dimensions, many ties)."""
+    out = []
+
+    def disc(solver, L, K, opts, **cbx):
+        c = {"solver": solver, "minimize": rng.random() < 0.5, "seed": rng.randrange(10 ** 6), "stop": 0, "large": True,
+             "cb": {"L": L, "K": K, "salt": rng.randrange(10 ** 6), "mode": "step", **cbx}, "opts": opts}
+        c["obj"] = rng.choice([{"kind": "hash", "salt": rng.randrange(10 ** 6), "scale": 1, "R": 3},
+                               {"kind": "plateau", "salt": 0, "scale": 1, "c": [rng.randrange(K) for _ in range(L)], "w": 3},
+                               {"kind": "needle", "salt": rng.randrange(10 ** 6), "scale": 1, "M": 29}])
+        c["start"] = [rng.randrange(K) for _ in range(L)]
+        return c
+
+    out.append(disc("anneal", 30, 4, {"max_iter": 20000, "temperature": 5.0, "cooling": 0.9999}))
+    out.append(disc("lns", 20, 5, {"max_iter": 5000, "max_no_improve": 5000, "accept": "simulated_annealing",
+                                   "start_temp": 1.0}, dtag=0, rtag=0))
+    out.append(disc("alns", 20, 5, {"max_iter": 5000, "max_no_improve": 5000, "segment_size": 50}, nd=2, nr=2))
+    out.append(disc("tabu", 40, 3, {"max_iter": 150, "max_no_improve": 150, "cooldown": 30}, dead=0, dens=4, coarse=False))
+    e = disc("evolve", 12, 4, {"max_iter": 25, "elite_size": 5, "mutation_rate": 0.3, "tournament_k": 4})
+    e["start"] = [[rng.randrange(4) for _ in range(12)] for _ in range(150)]
+    out.append(e)
+
+    def cont(solver, n, opts, **kw):
+        c = {"solver": solver, "minimize": rng.random() < 0.5, "seed": rng.randrange(10 ** 6), "stop": 0, "large": True,
+             "obj": gen_cobj(rng, n), "opts": opts, **kw}
+        return c
+
+    out.append(cont("de", 6, {"population_size": 60, "max_iter": 40, "tol": 0.0}, bounds=gen_bounds(rng, 6)))
+    out.append(cont("pso", 6, {"n_particles": 120, "max_iter": 40}, bounds=gen_bounds(rng, 6)))
+    out.append(cont("nm", 12, {"max_iter": 600, "tol": 0.0, "initial_step": 0.5}, start=[dyadic(rng, -4, 4) for _ in range(12)]))
+    out.append(cont("bayes", 3, {"n_initial": 6, "max_iter": 22, "acq_restarts": 2}, bounds=gen_bounds(rng, 3)))
+    return [with_pres(rng, c) for c in out]
 
 
 def edge_cases(rng):
@@ -764,32 +987,24 @@ def divergence(case, A, reply):
     return div
 
 
-class _Ctx:
-    """ctx.fail with a per-class counter in the histogram."""
-
-    def __init__(self, ctx):
-        self.ctx = ctx
-
-    def __getattr__(self, k):
-        return getattr(self.ctx, k)
-
-    def fail(self, fn, klass, what, rep):
-        self.ctx.count(f"fail:{fn}:{klass}")
-        return self.ctx.fail(fn, klass, what, rep)
-
-
 def _show(v):
     return v if isinstance(v, str) else repr(float(v)) if v.denominator != 1 else str(v.numerator)
 
 
 def judge(ctx, case, out, reply, alt=None):
-    ctx = _Ctx(ctx)
     s = case["solver"]
     fn = FN[s]
     rep = {"case": case, "impl": out, "model": reply}
     canon = [s, case["minimize"], case["seed"], case.get("stop"), case["obj"], case.get("start"),
-             case.get("bounds"), sorted((k, str(v)) for k, v in case["opts"].items()), case.get("cb")]
+             case.get("bounds"), sorted((k, str(v)) for k, v in case["opts"].items()), case.get("cb"),
+             case.get("pres"), (case.get("hist") or {}).get("pos")]
     ctx.count("solver:" + s)
+    for k, v in (case.get("pres") or {}).items():
+        ctx.count(f"pres:{k}:{v}")
+    if case.get("hist"):
+        ctx.count(f"history:pos{case['hist']['pos']}:{case['hist'].get('how', 'base')}")
+    if case.get("large"):
+        ctx.count("large:" + s)
     ctx.count(f"{s}:obj:{case['obj']['kind']}")
     ctx.count("minimize" if case["minimize"] else "maximize")
     if case.get("stop"):
@@ -852,6 +1067,10 @@ def judge(ctx, case, out, reply, alt=None):
                      f"Result.objective={_show(obj)} but objective_fn(Result.solution)={_show(fsol)}"
                      + (f"; the reported value is what the objective returned for another point (call #{stale[-1]})"
                         if stale else ""), rep)
+    if r.get("sol_changed"):
+        failed = True
+        ctx.fail(fn, "solution_changed_by_later_call", f"the solution object of this Result was {r['sol_changed'][0]} "
+                 f"when returned and is {r['sol_changed'][1]} after later calls", rep)
     if not r["same_again"]:
         failed = True
         ctx.fail(fn, "nondeterministic", f"second identical call returned {r['again']}", rep)
@@ -889,8 +1108,52 @@ def judge(ctx, case, out, reply, alt=None):
                                  "calls": len(A["fs"]), "model": reply[:3] if reply else None})
 
 
-def run_cases(ctx, cases):
-    outs = run_pool(impl, cases, timeout=60.0)
+class _Buf:
+    """Buffers what `judge` reports so that history failures can be classified before they are emitted."""
+
+    def __init__(self, ctx):
+        self.ctx, self.ops = ctx, []
+        self.tier, self.rng = ctx.tier, ctx.rng
+
+    def count(self, *a):
+        self.ops.append(("count", a))
+
+    def fail(self, *a):
+        self.ops.append(("fail", a))
+        return True
+
+    def tdiv(self, *a):
+        self.ops.append(("tdiv", a))
+
+    def case(self, *a, **k):
+        self.ops.append(("case", a))
+
+    def fails(self):
+        return [a for op, a in self.ops if op == "fail"]
+
+    def flush(self, suffix_for=()):
+        for op, a in self.ops:
+            if op == "fail":
+                fn, klass, what, rp = a
+                if klass in suffix_for:
+                    klass += ":after_previous_call"
+                    what += " (the same input run alone in a fresh process passes this clause)"
+                self.ctx.count(f"fail:{fn}:{klass}")
+                self.ctx.fail(fn, klass, what, rp)
+            elif op == "case":
+                self.ctx.case(*a)
+            else:
+                getattr(self.ctx, op)(*a)
+
+
+def _evaluate(groups):
+    """Run the groups on the implementation, replay every skeleton case in Lean; returns (cases, outs, by, alts)."""
+    gouts = run_pool(impl_group, groups, timeout=90.0)
+    cases, outs = [], []
+    for g, go in zip(groups, gouts):
+        for k, c in enumerate(g):
+            cases.append(c)
+            outs.append(tuple(go[1][k]) if go[0] == "ok" else go)     # a timeout/crash of the worker hits every element
     reqs, where = [], []
     for i, (c, o) in enumerate(zip(cases, outs)):
         if o[0] == "ok" and c["solver"] in SKELETON:
@@ -905,8 +1168,35 @@ def run_cases(ctx, cases):
     again = [i for i in where if cases[i]["solver"] == "lns" and outs[i][1]["A"]["accept_kind"] == 3
              and divergence(cases[i], outs[i][1]["A"], by[i])]
     alts = dict(zip(again, Driver("Search").run([to_request(cases[i], outs[i][1]["A"], orig=True) for i in again])))
+    return cases, outs, by, alts
+
+
+def run_cases(ctx, groups):
+    groups = [g if isinstance(g, list) else [g] for g in groups]
+    cases, outs, by, alts = _evaluate(groups)
+    bufs = []
+    hist_of = {id(c): g[: k + 1] for g in groups if len(g) > 1 for k, c in enumerate(g)}
     for i, (c, o) in enumerate(zip(cases, outs)):
-        judge(ctx, c, o, by.get(i), alts.get(i))
+        b = _Buf(ctx)
+        judge(b, c, o, by.get(i), alts.get(i))
+        if id(c) in hist_of:      # the replay of a history element needs the calls that preceded it
+            b.ops = [(op, (a[0], a[1], a[2], {**a[3], "history": hist_of[id(c)]}) if op == "fail" else a) for op, a in b.ops]
+        bufs.append(b)
+    # a failure inside a history: does the same input fail when it is run alone in a fresh process?
+    sus = [i for i, b in enumerate(bufs) if cases[i].get("hist") and cases[i]["hist"]["pos"] > 0 and b.fails()]
+    solo_fail: dict = {}
+    if sus:
+        solo = [[{k: v for k, v in cases[i].items() if k != "hist"}] for i in sus[:200]]
+        c2, o2, by2, alts2 = _evaluate(solo)
+        for j, i in enumerate(sus[:200]):
+            b = _Buf(ctx)
+            judge(b, c2[j], o2[j], by2.get(j), alts2.get(j))
+            solo_fail[i] = {a[1] for a in b.fails()}
+    for i, b in enumerate(bufs):
+        if i in solo_fail:
+            b.flush(suffix_for={a[1] for a in b.fails()} - solo_fail[i])
+        else:
+            b.flush()
 
 
 PER_SOLVER = {"anneal": 1000, "tabu": 800, "lns": 1200, "alns": 1000, "evolve": 800, "de": 600, "pso": 600, "nm": 1200,
@@ -924,18 +1214,29 @@ def _cov(ctx):
                                   "and are not generated")
 
 
+HISTORY_SHARE = 0.25      # fraction of the generated cases that are elements of 2-4 call histories
+
+
 def run(ctx, budget):
     ctx.cov["rule"] = RULE
-    cases = [c["case"] for c in load_corpus("C19")]
-    cases += edge_cases(ctx.rng)
+    groups = [[c["case"]] for c in load_corpus("C19")]
+    groups += [[c] for c in edge_cases(ctx.rng)]
+    groups += [[c] for c in large_cases(ctx.rng)]
+    gid = 0
     for s, k in PER_SOLVER.items():
-        mult = budget
-        for i in range(k * mult):
-            cases.append(gen_case(ctx.rng, s, big=(ctx.tier == "thorough" and i % 4 == 0)))
-    run_cases(ctx, cases)
+        n, made = k * budget, 0
+        while made < n:
+            if ctx.rng.random() < HISTORY_SHARE / 3:        # a history has 3 elements on average
+                gid += 1
+                g = gen_history(ctx.rng, s, gid)
+            else:
+                g = [with_pres(ctx.rng, gen_case(ctx.rng, s, big=(ctx.tier == "thorough" and made % 4 == 0)))]
+            groups.append(g)
+            made += len(g)
+    run_cases(ctx, groups)
     _cov(ctx)
 
 
 def replay(ctx, body):
-    run_cases(ctx, [body["case"]])
+    run_cases(ctx, [body.get("history") or [body["case"]]])
     _cov(ctx)
